@@ -109,4 +109,15 @@ SPECS = {
         "info_meaning": "[calls of the adversarial sweep]",
         "assumptions": ["the harness is built with overflow-checks and debug-assertions on, so arithmetic overflow is a panic", "a call taking more than 5 s counts as unbounded running; the whole run has a watchdog"],
     },
+    "C08": {
+        "id": "C08", "runners": ["RunC08"],
+        "info_meaning": "[type x option-set cases; overwrite cases]",
+        "assumptions": ["the zoo samples serde_derive (which Deserialize / Serialize calls a derived impl makes); it does not verify it", "from_type itself (the multi-pass exploration with a budget) is not modelled: it is compared with the documented mapping and with from_samples on covering samples", "from_type cannot trace maps as structs (documented error); from_samples sorts such fields: the two are not compared for map types under map_as_struct"],
+    },
+    "C04": {
+        "id": "C04", "runners": ["RunC01"],
+        "partial": ["the round trip over a type grammar (C04_full) is not a theorem; it is evaluated on the implementation for the zoo types"],
+        "info_meaning": "[cases whose traced schema is inside the builder model; cases fully judged by decode = interp]",
+        "assumptions": ["the zoo samples serde_derive (the calls derived impls make); it does not verify it", "exclusions of the property: None for an Option<enum> mapped to a union (those types run only with enums_without_data_as_strings), the inner None of nested Options (not in the zoo)"],
+    },
 }
